@@ -538,6 +538,64 @@ fn main() {
             }
         }
     }
+    // (7) first use: a freshly built ruleset (nothing has looked anything up in it yet) hit by 8 threads at the same
+    //     instant, again and again with new rulesets — whatever a ruleset prepares lazily on first use is prepared under
+    //     contention, and every thread must still get the sequential outcomes
+    {
+        let n_fresh = if quick { 300 } else { 3000 };
+        let names: Vec<&'static str> = vec!["g00", "g01", "g02", "g03", "g04", "g05", "g06", "g07", "g08", "g09", "g10", "g11", "g12", "g13", "g14", "g15", "g16", "g17", "g18", "g19", "g20", "g21", "g22", "g23"];
+        let build = || {
+            let mut b = ruleset();
+            for (i, nm) in names.iter().enumerate() {
+                b = b.with_function(Slow { name: nm, calls: calls.clone(), cacheable: i % 2 == 0 }).unwrap();
+            }
+            b = b.with_symbol("limit", Value::Int(21)).with_symbol("zeta", Value::Int(5));
+            b.with_rule(Rule::parse("// first\ng23(g00(x)) + g11(:limit) + :zeta").unwrap())
+                .unwrap()
+                .with_rule(Rule::parse("// second\n[g07(x), g12(x), name, tags.0]").unwrap())
+                .unwrap()
+                .build()
+        };
+        let want = enc(&rt1.block_on(build().evaluate(&inputs[1])));
+        let mut bad = 0usize;
+        for _ in 0..n_fresh {
+            let rs7 = Arc::new(build());
+            let barrier = Arc::new(std::sync::Barrier::new(8));
+            let hs: Vec<_> = (0..8)
+                .map(|_| {
+                    let rs7 = rs7.clone();
+                    let barrier = barrier.clone();
+                    let inp = inputs[1].clone();
+                    std::thread::spawn(move || {
+                        let rt = tokio::runtime::Builder::new_current_thread().build().unwrap();
+                        barrier.wait();
+                        enc(&rt.block_on(rs7.evaluate(&inp)))
+                    })
+                })
+                .collect();
+            for h in hs {
+                runs += 1;
+                match h.join() {
+                    Ok(o) if o == want => {}
+                    Ok(o) => {
+                        bad += 1;
+                        if bad <= 2 {
+                            mismatches.push(format!("first use of a freshly built ruleset by 8 threads at once: got {} want {}", o.chars().take(200).collect::<String>(), want.chars().take(200).collect::<String>()));
+                        }
+                    }
+                    Err(_) => {
+                        bad += 1;
+                        if bad <= 2 {
+                            mismatches.push("first use of a freshly built ruleset by 8 threads at once: a thread panicked".to_string());
+                        }
+                    }
+                }
+            }
+        }
+        if bad > 2 {
+            mismatches.push(format!("… and {} more first-use evaluations differ", bad - 2));
+        }
+    }
     let report = serde_json::json!({
         "runs": runs,
         "distinct_inputs": inputs.len(),
